@@ -159,6 +159,11 @@ static void* vf_thread_body(void* arg) {
   vf_self = id;
   while (sem_wait(&vf_th[id].sem) != 0) { }
   vf_th[id].fn(vf_th[id].arg);
+  /* In builds with detailed statistics (debug), mi_thread_done re-creates a thread heap while it deletes the thread's first-class heaps
+     (mi_heap_free -> mi_free -> mi_stat_free -> mi_heap_get_default -> mi_thread_init).  Left alone, the pthread key destructor would tear
+     that heap down AFTER this thread has handed the baton on: allocator work and OS calls outside the scheduled execution (and log lines
+     written concurrently).  Finish it here, under the scheduler. */
+  if (mi_heap_is_initialized(mi_prim_get_default_heap())) { vf_in_call = 1; mi_thread_done(); vf_in_call = 0; }
   vf_thread_finish();
   return NULL;
 }
